@@ -34,14 +34,19 @@ class LineVal:
         self.t = t
 
     def sym_method(self, ex, name, args, kw):
-        if name == "strip" and not args:
-            return StripVal(self.t)
+        if name in ("strip", "rstrip", "lstrip") and not args:
+            return StripVal(self.t)  # a different string in general: handing it on instead of the line is not verbatim
         raise Unsupported("str." + name)
 
 
 class StripVal:
     def __init__(self, t):
         self.t = t
+
+    def sym_method(self, ex, name, args, kw):
+        if name in ("strip", "rstrip", "lstrip") and not args:
+            return self
+        raise Unsupported("str." + name)
 
     def sym_eq(self, ex, other):
         if other == "":
@@ -316,6 +321,45 @@ def parse_instruction_unit(isa):
     return unit
 
 
+def range_expansion_unit(res):
+    """P (exhaustive over the finite domain): ParserAArch64.resolve_range_list for EVERY pair of register numbers 0..31 as range
+    ends (1024 pairs) x {no element index, [1]}: the members are start, start+1, ... (mod 32) up to end - in that order, each
+    post-processed once, with the element index carried to every member; and for every explicit list of 1..4 registers."""
+    files = PFILES + [PA]
+    ex = Engine([REPO + "/" + f for f in files])
+    ex.no_init.add("ParserAArch64")
+    made = []
+
+    def pro(ex_, so, a, kw):
+        made.append(a[0])
+        return ("reg", a[0]["name"], a[0].get("index"), a[0].get("shape"))
+
+    ex.abstract["process_register_operand"] = pro
+    bad = []
+    n = 0
+    for start in range(32):
+        for end in range(32):
+            for index in (None, "1"):
+                made.clear()
+                opnd = {"register": {"range": [{"prefix": "v", "name": str(start), "shape": "s"}, {"prefix": "v", "name": str(end), "shape": "s"}], "index": index}}
+                paths = ex.explore(lambda: ex.call_method("ParserAArch64", "resolve_range_list", SObj("ParserAArch64"), [opnd]), [])
+                n += 1
+                want = [str((start + k) % 32) for k in range((end - start) % 32 + 1)]
+                ok = len(paths) == 1 and paths[0].outcome[0] == "ret" and isinstance(paths[0].outcome[1], list) and \
+                    [x[1] for x in paths[0].outcome[1]] == want and all(x[2] == (None if index is None else 1) and x[3] == "s" for x in paths[0].outcome[1])
+                if not ok:
+                    bad.append((start, end, index, paths[0].outcome if paths else None))
+    res.add("range/members-start..end-mod-32-in-order-with-index", [], not bad).update(detail=None if not bad else f"{len(bad)} of {n} ranges wrong, e.g. {str(bad[0])[:200]}")
+    for k in (1, 2, 3, 4):
+        made.clear()
+        opnd = {"register": {"list": [{"prefix": "v", "name": str(30 + i if i < 2 else i), "shape": "d"} for i in range(k)], "index": "0"}}
+        paths = ex.explore(lambda: ex.call_method("ParserAArch64", "resolve_range_list", SObj("ParserAArch64"), [opnd]), [])
+        ok = len(paths) == 1 and paths[0].outcome[0] == "ret" and [x[1] for x in paths[0].outcome[1]] == [r["name"] for r in opnd["register"]["list"]] and all(x[2] == 0 for x in paths[0].outcome[1])
+        res.add(f"list/{k}-members-in-order-with-index-0", [], bool(ok))
+    res.note(f"{n} ranges evaluated")
+    return res
+
+
 NUMLANG = "decimal (no leading zeros) or 0x-hex literal with optional '-', at most 5 characters"
 PFILES = ["osaca/parser/operand.py", "osaca/parser/register.py", "osaca/parser/memory.py", "osaca/parser/immediate.py", "osaca/parser/identifier.py",
           "osaca/parser/directive.py", "osaca/parser/label.py", "osaca/parser/condition.py", "osaca/parser/prefetch.py", "osaca/parser/instruction_form.py", BP]
@@ -494,6 +538,7 @@ def units_for(prop):
     ] + ([Unit("C09/operand-post-processing", x86_mem_unit, "P", [(PX, "ParserX86ATT.process_memory_address"), (PX, "ParserX86ATT.process_immediate")])] if isa == "x86" else
          [Unit(f"C10/operand-post-processing/base={b}/index={i}", a64_mem_unit_for((b,), (i,)), "P", [(PA, "ParserAArch64.process_memory_address")])
           for b in ("x", "sp", "zr") for i in ("none", "x", "w")]) + [
+    ] + ([Unit("C10/resolve_range_list(all 32x32 ranges)", range_expansion_unit, "P", [(PA, "ParserAArch64.resolve_range_list")])] if isa != "x86" else []) + [
         bounded_unit(f"{prop}/render-parse-roundtrip", "c09_roundtrip", [(PX if isa == "x86" else PA, ("ParserX86ATT" if isa == "x86" else "ParserAArch64") + ".parse_line"),
                      (PX if isa == "x86" else PA, ("ParserX86ATT" if isa == "x86" else "ParserAArch64") + ".construct_parser"), (BP, "BaseParser.parse_file")],
                      extra_args=[isa], timeout=2400, decisive=True),
